@@ -63,9 +63,15 @@ func (v *vigil) BeginVigil() {
 }
 
 func (v *vigil) CeaseVigil() {
+	// The decrement and the broadcast happen under the mutex a waiter holds from its
+	// HasActiveVigils check until it is on the condition variable's notify list; without it
+	// the last CeaseVigil can slip between the waiter's check and its cond.Wait, the broadcast
+	// finds nobody to wake, and the waiter sleeps forever (lost wake-up).
+	v.cond.L.Lock()
 	atomic.AddInt64(&v.vigils, -1)
 	verifhook.Yield("vigil.cease.dec")
 	v.cond.Broadcast()
+	v.cond.L.Unlock()
 }
 
 func (v *vigil) HasActiveVigils() bool {
